@@ -238,6 +238,32 @@ def run_arrays(acc):
     acc.sample({"clause": "ndarray magnitudes", "helpers": sorted(helpers), "units": {"millimeter": "1", "microsecond": "-1"}, "magnitude": [2.5, -40.0, 1250.0]})
 
 
+def run_dimensionless(acc):
+    """a quantity whose only unit is a dimensionless one — scaled (percent, ppm) or LOGARITHMIC with a dimensionless
+    reference (decibel, decade, octave, neper) — reduces to the plain number it denotes: the same number .to('') gives"""
+    for nt in ("float",):
+        ureg = regs.default(nt, fresh=True)
+        for u in ("percent", "permille", "ppm", "decibel", "decade", "octave", "neper", "dB", "degree", "radian", "count"):
+            for x in (20.0, 3.0, 0.5, 0.0, -10.0):
+                q = ureg.Quantity(x, u)
+                want = call(lambda: q.to("") if q.dimensionless else None)
+                if want[0] != "ok" or want[1] is None:
+                    continue
+                for name in ("to_reduced_units", "ito_reduced_units"):
+                    acc.ev()
+                    acc.nt(("dimensionless", u, x, name))
+                    if name == "to_reduced_units":
+                        o = call(lambda: q.to_reduced_units())
+                    else:
+                        q2 = ureg.Quantity(x, u)
+                        o = call(lambda: (q2.ito_reduced_units(), q2)[1])
+                    ok = o[0] == "ok" and dict(o[1]._units) == dict(want[1]._units) and abs(float(o[1].magnitude) - float(want[1].magnitude)) <= 1e-12 * max(1.0, abs(float(want[1].magnitude)))
+                    if not ok:
+                        acc.violation([name.replace("ito_", "to_"), "preservation", "dimensionless-quantity-not-reduced-to-the-number-it-denotes", "log" if u in ("decibel", "decade", "octave", "neper", "dB") else "scaled"], {"unit": u, "magnitude": x, "helper": name}, show(want[1]), show(o[1]) if o[0] == "ok" else o[1])
+    acc.outcome("dimensionless")
+    acc.sample({"clause": "dimensionless", "quantity": "20 decibel", "expected": "100 (dimensionless)"})
+
+
 def run_systems(acc, sname):
     M = model()
     ureg = regs.default("Fraction", fresh=True)
@@ -480,7 +506,7 @@ def shards(tier, seed):
         out.append(("systems", s_))
     for nt in ("Fraction", "float", "Decimal", "ufloat"):
         out.append(("compact", nt))
-    out += [("preferred",), ("auto", "auto_reduce_dimensions"), ("auto", "autoconvert_to_preferred"), ("arrays",)]
+    out += [("preferred",), ("auto", "auto_reduce_dimensions"), ("auto", "autoconvert_to_preferred"), ("arrays",), ("dimensionless",)]
     return out
 
 
@@ -496,6 +522,8 @@ def run_shard(acc, shard, tier, seed):
         run_preferred(acc)
     elif k == "arrays":
         run_arrays(acc)
+    elif k == "dimensionless":
+        run_dimensionless(acc)
     elif k == "auto":
         run_auto(acc, shard[1])
     else:
@@ -509,6 +537,8 @@ def replay(rec):
     tier = rec.get("tier", "quick")
     if site[-1] == "float-array":
         run_arrays(acc)
+    elif site[2] == "dimensionless-quantity-not-reduced-to-the-number-it-denotes":
+        run_dimensionless(acc)
     elif site[0] == "to_compact":
         run_compact(acc, nt if nt in ("Fraction", "float", "Decimal", "ufloat") else "float", tier)
     elif site[0] == "to_preferred":
